@@ -52,6 +52,30 @@ void suite_wire(int tier) {
         stripe_t s;
         if (op_enc(c, legacy, d, len, &s) == 0) {
             wire_oracle(&s, d, len);
+            /* the built-in codes have a fixed word size: a caller-supplied w must not change the format */
+            if ((c.be == 3 || c.be == 6) && rnd(2)) {
+                static const int ws[] = { 8, 16, 32, 64, 4, 7, -1 };
+                struct ec_args a; memset(&a, 0, sizeof a); a.k = c.k; a.m = c.m; a.hd = c.hd; a.w = ws[rnd(7)];
+                a.ct = (ec_checksum_type_t)c.ct;
+                int d2 = liberasurecode_instance_create((ec_backend_id_t)c.be, &a);
+                if (d2 > 0) {
+                    char **ed = NULL, **ep = NULL; uint64_t fl = 0;
+                    set_legacy(legacy);
+                    int rc = liberasurecode_encode(d2, (char *)d, len, &ed, &ep, &fl);
+                    set_legacy(0);
+                    if (rc == 0) {
+                        int same = fl == s.flen;
+                        for (int i = 0; same && i < c.k; i++) same = !memcmp(ed[i], s.all[i], fl);
+                        for (int i = 0; same && i < c.m; i++) same = !memcmp(ep[i], s.all[c.k + i], fl);
+                        if (!same) oracle_fail("C07", "fragments of be=%d (%d,%d,%d) len=%zu differ when the instance was created with w=%d (fragment length %llu vs %llu)", c.be, c.k, c.m, c.hd, len, a.w, (unsigned long long)fl, (unsigned long long)s.flen);
+                        if (liberasurecode_get_fragment_size(d2, (int)len) + HDR != (int)fl) oracle_fail("C08", "fragment_size disagrees with encode for an instance created with w=%d", a.w);
+                        if (liberasurecode_get_aligned_data_size(d2, len) != liberasurecode_get_aligned_data_size(s.desc, len)) oracle_fail("C08", "aligned_data_size depends on the w given at creation (w=%d) for a fixed-word-size code be=%d", a.w, c.be);
+                        liberasurecode_encode_cleanup(d2, ed, ep);
+                    } else oracle_fail("C07", "encode failed (%d) on an instance created with w=%d", rc, a.w);
+                    liberasurecode_instance_destroy(d2);
+                    stat_add("wire.w_variation", 1);
+                } else stat_add("wire.w_refused", 1);
+            }
             stripe_free(&s);
             char key[64]; snprintf(key, sizeof key, "wire.be%d", c.be); stat_add(key, 1);
             stat_add(len == 0 ? "wire.len0" : (len % ((size_t)c.k * cfg_wbytes(c)) == 0 ? "wire.len_aligned" : "wire.len_unaligned"), 1);
@@ -99,6 +123,10 @@ static void consume_all(stripe_t *s, int fi, unsigned char *mut, int with_decode
         int n = 0; char **fr2 = malloc(sizeof(char *) * s->n);
         for (int i = 0; i < s->n; i++) if (i != dest) fr2[n++] = fr[i];
         op_rec_g(c, 0, dest, s->flen, n, fr2);
+        /* the destination already among the supplied fragments (the whole stripe handed in): the request
+           for another fragment, and for the damaged one itself */
+        op_rec_g(c, 0, dest, s->flen, s->n, fr);
+        op_rec_g(c, 0, fi, s->flen, s->n, fr);
         free(fr); free(fr2);
     }
 }
